@@ -613,8 +613,9 @@ func replayConcRound(res *lib.Result, rd concRound) {
 type streamRound struct {
 	Subs  []concChan `json:"subscribers"`
 	K     int        `json:"values_sent"`
-	Leave int        `json:"leaver"`            // index of the subscriber that unsubscribes during the stream, -1 = nobody
-	Tee   bool       `json:"via_tee,omitempty"` // the values are sent on another feed and forwarded by feed.Tee (as rpc does with sync's feeds)
+	Leave int        `json:"leaver"`                    // index of the subscriber that unsubscribes during the stream, -1 = nobody
+	Poll  bool       `json:"polling_readers,omitempty"` // readers poll with a non-blocking receive instead of blocking
+	Tee   bool       `json:"via_tee,omitempty"`         // the values are sent on another feed and forwarded by feed.Tee (as rpc does with sync's feeds)
 	Procs int        `json:"gomaxprocs,omitempty"`
 }
 
@@ -655,7 +656,35 @@ func runStreamRound(rd streamRound) (problems []string, panics []string, hung bo
 			for !goFlag.Load() {
 				runtime.Gosched()
 			}
-			for {
+			for n := 0; ; n++ {
+				if rd.Poll {
+					// a busy reader: it arrives at the channel at arbitrary moments of a Send
+					select {
+					case v, ok := <-subs[i].Recv():
+						if !ok {
+							return
+						}
+						recvd[i] = append(recvd[i], v)
+						continue
+					default:
+					}
+					select {
+					case <-stop:
+					default:
+						if n%64 == 63 {
+							runtime.Gosched()
+						}
+						continue
+					}
+					select {
+					case v, ok := <-subs[i].Recv():
+						if ok {
+							recvd[i] = append(recvd[i], v)
+						}
+					default:
+					}
+					return
+				}
 				select {
 				case v, ok := <-subs[i].Recv():
 					if !ok {
@@ -840,7 +869,10 @@ func judgeStream(res *lib.Result, rd streamRound, problems, panics []string, hun
 }
 
 func genStreamRound(r *lib.RNG, i int) streamRound {
-	rd := streamRound{K: r.Range(1, 6), Leave: -1, Procs: []int{4, 8, 2, 16}[i%4]}
+	rd := streamRound{K: r.Range(1, 6), Leave: -1, Procs: []int{4, 8, 2, 16}[i%4], Poll: r.Chance(1, 2)}
+	if r.Chance(1, 4) {
+		rd.K = r.Range(16, 64)
+	}
 	n := r.Range(1, 3)
 	for j := 0; j < n; j++ {
 		rd.Subs = append(rd.Subs, concChan{KeepLast: r.Chance(2, 3), Full: r.Chance(2, 3)})
@@ -874,6 +906,9 @@ func checkFeedStreams(f lib.Flags, res *lib.Result) {
 		if rd.Tee {
 			res.Hit("feed-stream:through-feed.Tee")
 		}
+		if len(problems) > 0 {
+			res.Hit("feed-stream:rounds-with-an-oracle-failure")
+		}
 		if judgeStream(res, rd, problems, panics, hung, i, reported) && (hung || len(panics) > 0) {
 			return
 		}
@@ -895,4 +930,143 @@ func replayStreamRound(res *lib.Result, rd streamRound) {
 		}
 	}
 	res.Case("feed-stream-replay/no-failure-in-2000000-attempts", true)
+}
+
+// ---------------------------------------------------------------------------------------------
+// EPOCH rounds: ONE long-lived feed, a keep-last subscriber with a busy reader, a churner that
+// subscribes and unsubscribes other subscribers all the time, and a sender that in every epoch e sends
+// 2e-1 and 2e back to back and then waits until the reader has seen 2e. The second send of an epoch
+// usually finds the slot full, so the keep-last replacement (failed send, drain, blocking send) runs
+// while the reader is taking the old value: thousands of chances per round for the few-instruction
+// window. Oracle: the LAST value sent always reaches a keep-last subscriber that stays subscribed
+// (what keep-last is for; new-head notifications at the tip are exactly this), values arrive in
+// increasing order, nothing panics.
+// ---------------------------------------------------------------------------------------------
+
+type epochRound struct {
+	Epochs  int  `json:"epochs"`
+	Churn   bool `json:"concurrent_subscribe_unsubscribe"`
+	Procs   int  `json:"gomaxprocs"`
+	FailsAt int  `json:"failed_at_epoch,omitempty"`
+}
+
+func runEpochRound(rd epochRound) (sig, what string, failedAt int) {
+	f := feed.New[int]()
+	sub := f.SubscribeKeepLast()
+	var lastSeen atomic.Int64
+	var stop atomic.Bool
+	var order atomic.Int64 // first out-of-order pair: prev<<32 | v
+	var wg sync.WaitGroup
+	var panicMsg atomic.Value
+	wg.Add(1)
+	go func() { // the reader
+		defer wg.Done()
+		prev := 0
+		for n := 0; ; n++ {
+			select {
+			case v := <-sub.Recv():
+				if v <= prev && order.Load() == 0 {
+					order.Store(int64(prev)<<32 | int64(v))
+				}
+				prev = v
+				lastSeen.Store(int64(v))
+			default:
+				if stop.Load() {
+					return
+				}
+				if n%256 == 255 {
+					runtime.Gosched()
+				}
+			}
+		}
+	}()
+	if rd.Churn {
+		wg.Add(1)
+		go func() { // subscribers coming and going
+			defer wg.Done()
+			err, panicked, _ := lib.Try(func() error {
+				var held []*feed.Subscription[int]
+				for n := 0; !stop.Load(); n++ {
+					if n%3 == 2 {
+						held = append(held, f.SubscribeKeepLast())
+					} else {
+						held = append(held, f.Subscribe())
+					}
+					if len(held) > 3 {
+						held[0].Unsubscribe()
+						held = held[1:]
+					}
+					if n%5 == 0 {
+						runtime.Gosched()
+					}
+				}
+				for _, h := range held {
+					h.Unsubscribe()
+				}
+				return nil
+			})
+			if panicked {
+				panicMsg.Store("subscribe/unsubscribe: " + err.Error())
+			}
+		}()
+	}
+	startHeartbeat()
+	defer func() { stop.Store(true); wg.Wait(); sub.Unsubscribe() }()
+	for e := 1; e <= rd.Epochs; e++ {
+		err, panicked, _ := lib.Try(func() error { f.Send(2*e - 1); f.Send(2 * e); return nil })
+		if panicked {
+			return concSigOfPanic("send: " + err.Error()), fmt.Sprintf("send %d/%d: %v", 2*e-1, 2*e, err), e
+		}
+		deadline := beats.Load() + 1000 // 10 s of a healthy process
+		for spins := 0; lastSeen.Load() != int64(2*e); spins++ {
+			if spins%512 == 511 {
+				runtime.Gosched()
+				if beats.Load() > deadline {
+					return "feed-keep-last-subscriber-does-not-end-with-the-last-value",
+						fmt.Sprintf("epoch %d: %d and %d were sent back to back to a keep-last subscriber whose reader takes values as fast as it can; the reader's last value is %d and nothing else arrives: %d is lost", e, 2*e-1, 2*e, lastSeen.Load(), 2*e), e
+				}
+			}
+		}
+		if o := order.Load(); o != 0 {
+			return "feed-subscriber-receives-wrong-or-reordered-values-under-concurrency",
+				fmt.Sprintf("the reader received %d after %d", o&0xffffffff, o>>32), e
+		}
+		if m := panicMsg.Load(); m != nil {
+			return "feed-panics-under-concurrency", m.(string), e
+		}
+	}
+	return "", "", 0
+}
+
+func checkFeedEpochs(f lib.Flags, res *lib.Result) {
+	defProcs := runtime.GOMAXPROCS(0)
+	defer runtime.GOMAXPROCS(defProcs)
+	for i, p := range []int{4, 8, 2, 16} {
+		runtime.GOMAXPROCS(p)
+		rd := epochRound{Epochs: f.Scale(60000, 1000000), Churn: i%2 == 1, Procs: p}
+		sig, what, at := runEpochRound(rd)
+		res.Case(fmt.Sprintf("feed-epochs/%d/%v", p, rd.Churn), true)
+		res.HitN("feed-epochs:pairs-sent-and-awaited", rd.Epochs)
+		if sig != "" {
+			rd.FailsAt = at
+			res.Violate(lib.Violation{Sig: sig, What: "feed.Feed under concurrent use: " + what,
+				Replay: map[string]any{"feed_epochs": rd, "how": "one long-lived feed: a keep-last subscriber with a polling reader, optionally other subscribers coming and going, the sender sends 2e-1 and 2e and waits for 2e to be seen; --replay runs it again"}})
+			return
+		}
+	}
+}
+
+func replayEpochRound(res *lib.Result, rd epochRound) {
+	defProcs := runtime.GOMAXPROCS(0)
+	defer runtime.GOMAXPROCS(defProcs)
+	if rd.Procs > 0 {
+		runtime.GOMAXPROCS(rd.Procs)
+	}
+	rd.Epochs *= 20
+	sig, what, at := runEpochRound(rd)
+	res.Case("feed-epochs-replay", true)
+	if sig != "" {
+		rd.FailsAt = at
+		res.Violate(lib.Violation{Sig: sig, What: "feed.Feed under concurrent use: " + what, Replay: map[string]any{"feed_epochs": rd}})
+	}
 }
